@@ -3,7 +3,7 @@ import Model.ErrsFmt
 /-! C11, the text of a stack trace: `(*Error).StackTrace` (errs/errors.go:267-333) over REAL frames.
 
 A recorded stack is what `runtime.CallersFrames(e.stack)` yields: a list of frames (function, file, line).  This file
-transcribes, branch for branch, what the library does with them: `callStack` (the 512-entry buffer), the frame loop with its
+transcribes, branch for branch, what the library does with them: `callStack` (its fixed-size buffer), the frame loop with its
 buffer, the filter (`trimRuntime`, `RuntimePrefixesToFilter`, the `main.main`/`_testmain.go` rule), the shortening of the
 file path (cut at the last separator before the first dot, drop a trailing `_obj` directory, drop the directory when it
 repeats the start of the function name) and — through the generic `stackG`, of which the token rendering `stackC` of
@@ -84,11 +84,12 @@ def framesChars (trim : Bool) (prefixes : List String) (fs : List Frame) : List 
 def framesText (trim : Bool) (prefixes : List String) (fs : List Frame) : String :=
   String.ofList (framesChars trim prefixes fs)
 
-/-- `callStack`: `var pcs [512]uintptr; n := runtime.Callers(3, pcs[:])` — the frames above the caller of the exported
+/-- `callStack`: `var pcs [N]uintptr; n := runtime.Callers(3, pcs[:])` — the frames above the caller of the exported
     function (`lib`: the library's own frames when a constructor goes through another one, e.g. `Newf` → `New`) followed
-    by the stack at the creation site, cut at 512 entries -/
-def stackBuffer : Nat := 512
-def recordStack (lib site : List Frame) : List Frame := (lib ++ site).take stackBuffer
+    by the stack at the creation site, cut at the `buf` entries of the buffer.  The size of the buffer is not copied from
+    the source: the harness measures it on every run (an error created under a very deep stack) and writes it into every
+    line of area `trace`. -/
+def recordStack (buf : Nat) (lib site : List Frame) : List Frame := (lib ++ site).take buf
 
 /-- `StackTrace` with the frame block of cell `i` given by `blk i`: the frames of the error itself, then — for a cause
     that is present and not merely wrapped — `Caused by:` and the cause's own `Detail` (an `*Error` cause) or `Error()`
